@@ -281,3 +281,9 @@ impl core::convert::From<BytesMut> for Bytes {
     #[verifier::external_body]
     fn from(v: BytesMut) -> (r: Bytes) ensures r@ == v@ { unimplemented!() }
 }
+
+//@trusted T2 `<&[u8] as TryInto<&[u8; N]>>::try_into` (core::array) succeeds exactly for slices of length N and refers to the same octets (Verus cannot attach a spec to the std impl; units call it through this free function by //@sub)
+#[verifier::external_body]
+pub fn slice_try_into_arr_ref<const N: usize>(s: &[u8]) -> (r: core::result::Result<&[u8; N], ()>)
+    ensures (r is Ok) == (s@.len() == N), r matches Ok(a) ==> a@ == s@
+{ unimplemented!() }
